@@ -4,4 +4,5 @@ From AHK Require Import Lib.Res Lib.ByteStr Model.Find.
 Separate Extraction Z.of_N Z.to_N N.of_nat N.to_nat
   from_service_info adv_parse notif_parse svc_descr adv_descr
   mdns_cfg ble_cfg ble_orig_cfg ble_noguard_cfg st0 agg0
-  step mdns_callback ble_callback astep render_txt render_adv render_notif dec upper py_int.
+  step mdns_callback ble_callback astep render_txt render_adv render_notif dec upper py_int
+  notif_handle ble_callback_full utf8_ok.
